@@ -36,3 +36,55 @@ PROPS["C16"] = dict(
     assumptions=COMMON_ASSUME + ["null chips replace the emulator cores (the bank API never touches them)",
                                  "bank handles are looked up afresh before each use (the header promises no validity across mutations)"],
 )
+
+RT_SRC = ["models/rt_voice.cpp"]
+RT_ASSUME = COMMON_ASSUME + [
+    "null chips replace the emulator cores through the guarded chip-factory hook; the library layer only writes to them",
+    "alphabet: MIDI channels {0 melodic, 9 percussion}, keys {60,62,64}, generated bank (melodic programs 0,1 + blank 2; drum keys 60,62 + blank 64)",
+    "time advances only through opn2_generate (12/40 ms steps; 30 ms/5 s/120 s for C06) at 44100 Hz",
+]
+
+PROPS["C04"] = dict(
+    level="model_checking", engine="mcx", title="voice-allocation bookkeeping stays consistent",
+    technique="explicit-state model checking of the real real-time/sequencer/config API (BFS by history replay) with six structural invariants on the private bookkeeping and the 0x28 register tap after every call; library asserts enabled",
+    level_text="All call histories up to the completed depth over the stated alphabet (note on/off, pedals, CC120/121/123, panic, reset-state, program/bend/portamento, time, arpeggio and allocation modes; "
+               "plus bank reload, chip count, emulator switch, chip type, reset, bank removal and sequencer ticks in the configuration leg) are executed on the library and invariants I1..I6 of the statement are "
+               "evaluated on a snapshot of OPNMIDIplay's private state and the key-on register state after every call.",
+    level_note="trusted: the snapshot reader (-fno-access-control), the register tap hook, the invariant code; longer histories, more keys/channels and real emulator cores are outside the bound",
+    legs=[
+        Leg("rt", RT_SRC, "fast", ["--prop", "C04", "--depth", "5"], ["--prop", "C04", "--depth", "6"]),
+        Leg("cfg", RT_SRC, "fast", ["--prop", "C04", "--config", "1", "--seq", "1", "--starts", "fresh,song,busy5,nearfull chips=2", "--depth", "3"],
+            ["--prop", "C04", "--config", "1", "--seq", "1", "--starts", "fresh,song,busy5,nearfull chips=2", "--depth", "4"]),
+        Leg("asan", RT_SRC, "asan", ["--prop", "C04", "--config", "1", "--seq", "1", "--starts", "fresh,song,busy5", "--depth", "2"],
+            ["--prop", "C04", "--config", "1", "--seq", "1", "--starts", "fresh,song,busy5", "--depth", "3"]),
+    ],
+    rule="BFS over all call sequences; a state is distinct when any serialised field of the MIDI channels (controllers, active-note lists in order), chip channels (user lists in order, ages), "
+         "setup, instrument caches, bank contents or the key-on bitmap differs (128-bit hash of the canonical serialisation)",
+    assumptions=RT_ASSUME,
+)
+PROPS["C05"] = dict(
+    level="model_checking", engine="mcx", title="a note sounds exactly while key/pedal/sostenuto holds it",
+    technique="explicit-state model checking of the real real-time API against a lock-step reference model of the MIDI key/pedal/sostenuto rules; observed keyed-on (channel,key) set from the 0x28 tap joined with the chip-channel user lists",
+    level_text="Every history up to the completed depth (polyphony precondition enforced on the pre-state, arpeggio off) is executed on the library; after every call the set of (channel,key) pairs owning a keyed-on "
+               "chip channel must equal the reference model's sounding set, with three-valued expectation only inside the 30 ms percussion window.",
+    level_note="trusted: the reference model (models/rt_voice.cpp RefModel, rules quoted from the statement), tap and snapshot; don't-cares: 30 ms drum window, reset-state with keys down (pruned), pedal changes while a drum release is deferred (pruned)",
+    legs=[
+        Leg("rules", RT_SRC, "fast", ["--prop", "C05", "--depth", "5"], ["--prop", "C05", "--depth", "6"]),
+        Leg("rules2chips", RT_SRC, "fast", ["--prop", "C05", "--chips", "2", "--depth", "4"], ["--prop", "C05", "--chips", "2", "--depth", "5"]),
+    ],
+    rule="BFS over all histories of note-on/off, CC64/66/120/121/123, panic, reset-state, program change and 12/40 ms time steps on a melodic and a percussion channel; state = implementation snapshot + reference-model state",
+    assumptions=RT_ASSUME,
+)
+PROPS["C06"] = dict(
+    level="model_checking", engine="mcx", title="a new note never displaces a sounding note while a chip channel is idle",
+    technique="explicit-state model checking of the real API with a pre/post snapshot relation around every note-on, from empty and constructed near-full start states, all four allocation modes, arpeggio on/off, chips 1..3, simulated time bounded to 10 minutes",
+    level_text="Every history up to the completed depth from each start configuration is executed; around each note-on on a non-blank instrument the relation of the statement is checked on the chip-channel user lists "
+               "(idle channel chosen, nobody displaced; when all are busy a single pedal-held user goes before a key-down one).",
+    level_note="trusted: snapshot reader; 10-minute horizon enforced as a precondition (the scoring code makes the property false after about 66 simulated minutes of holding a note)",
+    legs=[
+        Leg("alloc", RT_SRC, "fast", ["--prop", "C06", "--depth", "3", "--starts", "fresh,alloc=0,alloc=1,alloc=2,arp=1,arp=1 alloc=1,nearfull chips=2,nearfull chips=3 arp=1"],
+            ["--prop", "C06", "--depth", "4", "--starts", "fresh,alloc=0,alloc=1,alloc=2,arp=1,arp=1 alloc=1,nearfull chips=2,nearfull chips=3 arp=1,nearfull chips=8"]),
+    ],
+    rule="BFS over note/pedal/controller/time histories (30 ms, 5 s, 120 s steps, total <= 600 s) x start configurations; distinct by full implementation snapshot + simulated time",
+    assumptions=RT_ASSUME,
+)
